@@ -598,6 +598,10 @@ def check_block_walk(rule, g, gctx, gat, cfgname, name, N):
             else:
                 problems.append("an iteration can finish without advancing either iterator (the walk stalls)")
             continue
+        if len(adv) != len(set(adv)):
+            nm2 = {da: na, db_: nb}
+            problems.append("%s advances more than once in one iteration: an entry of its view is never compared (a block pair is skipped)" % " and ".join(sorted({nm2[x] for x in adv if adv.count(x) > 1})))
+            continue
         if rel == "==" and adv and set(adv) <= {da, db_}:
             continue      # keys are unique in each bimap view: after a match advancing either iterator (or both) loses no pair
         if sorted(adv) != want:
